@@ -86,6 +86,7 @@ def main():
             rcv, ov = -1, "patch does not apply to /repo: " + op
     finally:
         sh("git -C /repo checkout -- .")
+        sh("python3 tools/py2v.py", cwd=ROOT)      # generated kernels back to the unpatched source
     # replays written while the patch was applied belong to the seed, not to the unchanged tree
     os.makedirs(os.path.join(out, "replays"), exist_ok=True)
     for f in sorted(set(os.listdir(rdir)) - before) if os.path.isdir(rdir) else []:
